@@ -151,16 +151,16 @@ func main() {
 	kn := loadKnown(*verif)
 	var (
 		nObl, nValid, nViol, nInc, nFolded, nSolver int
-		qsat, qunsat, qunk                       int
-		solverS                                  float64
-		controlsOK, controlsBad                  int
-		paths                                    int
-		samples                                  []any
-		funcs                                    = map[string]int{}
-		incon                                    []string
-		violLines, knownLines                    []string
-		engineErr                                []string
-		controlHit                               = map[string]bool{}
+		qsat, qunsat, qunk                          int
+		solverS                                     float64
+		controlsOK, controlsBad                     int
+		paths                                       int
+		samples                                     []any
+		funcs                                       = map[string]int{}
+		incon                                       []string
+		violLines, knownLines                       []string
+		engineErr                                   []string
+		controlHit                                  = map[string]bool{}
 	)
 	exit := 0
 	for i, b := range batches {
@@ -272,23 +272,23 @@ func main() {
 		}
 	}
 	e1 := map[string]any{
-		"engine":                         "E1 ssasym: SSA-level symbolic interpreter of the real Go code (go/ssa), bit-vector SMT queries decided by " + *solver + ", counterexamples replayed natively",
-		"batches":                        len(batches),
-		"obligations":                    nObl,
-		"obligations_valid":              nValid,
-		"obligations_valid_decided_by_solver_query":     nSolver,
-		"obligations_valid_folded_by_term_normal_form":  nFolded,
-		"obligations_violated":           nViol,
-		"obligations_inconclusive":       nInc,
-		"inconclusive":                   incon,
-		"negative_controls_detected":     controlsOK,
-		"negative_controls_missed":       controlsBad,
-		"symbolic_paths":                 paths,
-		"queries":                        map[string]any{"sat": qsat, "unsat": qunsat, "unknown": qunk, "solver_s": solverS},
-		"functions_encoded":              fl,
-		"bounds":                         def.Bounds,
-		"outside_claim":                  def.Outside,
-		"samples":                        samples,
+		"engine":            "E1 ssasym: SSA-level symbolic interpreter of the real Go code (go/ssa), bit-vector SMT queries decided by " + *solver + ", counterexamples replayed natively",
+		"batches":           len(batches),
+		"obligations":       nObl,
+		"obligations_valid": nValid,
+		"obligations_valid_decided_by_solver_query":    nSolver,
+		"obligations_valid_folded_by_term_normal_form": nFolded,
+		"obligations_violated":                         nViol,
+		"obligations_inconclusive":                     nInc,
+		"inconclusive":                                 incon,
+		"negative_controls_detected":                   controlsOK,
+		"negative_controls_missed":                     controlsBad,
+		"symbolic_paths":                               paths,
+		"queries":                                      map[string]any{"sat": qsat, "unsat": qunsat, "unknown": qunk, "solver_s": solverS},
+		"functions_encoded":                            fl,
+		"bounds":                                       def.Bounds,
+		"outside_claim":                                def.Outside,
+		"samples":                                      samples,
 	}
 	evPath := filepath.Join(*verif, "evidence", *prop+".json")
 	_ = os.MkdirAll(filepath.Dir(evPath), 0o755)
